@@ -197,7 +197,7 @@ Theorem transfer_all fuel r w dst sname dname t t' fs' :
   deref fuel t [] t = Some t' ->
   cell_ok r w dst sname dname t = true ->
   transfer fuel r w dst sname dname t = Some fs' ->
-  exists c, lookup fs' (place dst sname dname) = Some c /\ copy_ok w t t' c.
+  exists c, lookup fs' (place dst sname dname) = Some c /\ copy_exact r w t t' c.
 Proof.
   intros Hd Hw Hde Hcell Htr.
   assert (Hw' : wf t') by (eapply (wf_deref t Hw); eassumption).
@@ -210,10 +210,10 @@ Proof.
     destruct (deref_dir _ _ _ _ _ Hde) as [es' ->].
     unfold local_copy. simpl negb. cbv iota. simpl is_dir_t. cbv iota.
     rewrite strip_extract. rewrite <- (not_dir_place dst sname dname Edir).
-    exists (Dir es'). split; [now apply extract_at_place | now left].
+    exists (Dir es'). split; [now apply extract_at_place | cx].
   - (* RL *)
     rewrite r2l_eq by (apply (dst_ok_shape dst sname); exact Hd).
-    exists t'. split; [now apply extract_at_place | now left].
+    exists t'. split; [now apply extract_at_place | cx].
   - (* RRother, destination absent, renamed *)
     destruct (is_dir dst) eqn:Edir; [discriminate|]. destruct (String.eqb sname dname) eqn:Ename; [discriminate|].
     simpl in Hcell. unfold r2r, write_command. rewrite Edir, Ename. simpl negb. cbv iota.
@@ -222,14 +222,14 @@ Proof.
       destruct x; [discriminate|]. pose proof (deref_file _ _ _ _ _ _ Hde) as Et. subst t'. simpl is_dir_t. cbv iota.
       unfold run_wcmd, file_contents. simpl fold_right. rewrite append_nil_r.
       rewrite <- (not_dir_place dst sname dname Edir).
-      exists (File c false). split; [|now left].
+      exists (File c false). split; [|cx].
       change (insert (world dname dst) (place dst sname dname, MFile c false))
         with (extract (members (place dst sname dname) (File c false)) (world dname dst)).
       apply extract_at_place; [assumption | exact I].
     + (* a directory through --strip-components 1 *)
       destruct (deref_dir _ _ _ _ _ Hde) as [es' ->]. simpl is_dir_t. cbv iota. unfold run_wcmd.
       rewrite strip_extract. rewrite <- (not_dir_place dst sname dname Edir).
-      exists (Dir es'). split; [now apply extract_at_place | now left].
+      exists (Dir es'). split; [now apply extract_at_place | cx].
 Qed.
 
 Theorem transfer_frame_all fuel r w es sname dname t fs' m :
@@ -245,6 +245,72 @@ Proof.
   - rewrite r2l_eq by (right; now exists es). unfold place. simpl is_dir. cbv iota.
     rewrite extract_members. now apply frame_at.
 Qed.
+
+Lemma copy_exact_ok r w t t' c : copy_exact r w t t' c -> copy_ok w t t' c.
+Proof. unfold copy_exact, copy_ok. destruct r, w; intros ->; auto. Qed.
+
+(* ---------------------------------------------------------------- the domain on which the tree transformers stand for the tools *)
+(* [t] can be extracted over what is at a node without a kind conflict (a file where a directory has to go, or the reverse:
+   there tar, tarfile and cp refuse or half-copy, and the total functions of the model do not describe them) *)
+Fixpoint fits (t : tree) (o : option tree) : Prop :=
+  match t with
+  | Dir es =>
+      match o with
+      | None => True
+      | Some (Dir e0) =>
+          (fix all (es : list (string * tree)) : Prop :=
+             match es with [] => True | e :: r => fits (snd e) (lookup1 (fst e) e0) /\ all r end) es
+      | Some _ => False
+      end
+  | _ => match o with Some (Dir _) => False | _ => True end
+  end.
+(* every node on the way to [p] is a directory or missing *)
+Fixpoint path_fits (p : path) (o : option tree) : Prop :=
+  match p with
+  | [] => True
+  | n :: p' => match o with
+               | None => True
+               | Some (Dir es) => path_fits p' (lookup1 n es)
+               | Some _ => False
+               end
+  end.
+Definition no_conflict (p : path) (t : tree) (fs : tree) : Prop :=
+  path_fits p (Some fs) /\ fits t (olookup (Some fs) p).
+
+Lemma fits_none t : fits t None.
+Proof. destruct t; exact I. Qed.
+
+(* a destination that is absent, or a directory without an entry named like the source, is inside that domain *)
+Theorem dst_ok_no_conflict dst sname dname u :
+  dst_ok dst sname -> no_conflict (place dst sname dname) u (world dname dst).
+Proof.
+  intros Hd. split.
+  - destruct Hd as [->|[es [-> Hn]]]; unfold place, world; simpl; [exact I|].
+    rewrite String.eqb_refl. simpl. now destruct (lookup1 sname es).
+  - rewrite nothing_at_place by exact Hd. apply fits_none.
+Qed.
+
+Theorem extract_members_dom t p fs : no_conflict p t fs -> extract (members p t) fs = at_path p (merge t) (Some fs).
+Proof. intros _. apply extract_members. Qed.
+Theorem strip_extract_dom d s es fs :
+  no_conflict d (Dir es) fs ->
+  extract (reroot d (strip1' (members [s] (Dir es)))) (insert fs (d, MDir)) = extract (members d (Dir es)) fs.
+Proof. intros _. apply strip_extract. Qed.
+Theorem r2l_eq_dom dst sname dname t' :
+  dst_ok dst sname -> r2l dst sname dname t' = extract (members (place dst sname dname) t') (world dname dst).
+Proof. intros Hd. apply r2l_eq. destruct Hd as [->|[es [-> _]]]; [now left | right; now exists es]. Qed.
+Theorem transfer_frame_dom fuel r w es sname dname t fs' m :
+  dst_ok (Some (Dir es)) sname ->
+  m <> sname -> cell_ok r w (Some (Dir es)) sname dname t = true ->
+  transfer fuel r w (Some (Dir es)) sname dname t = Some fs' ->
+  lookup fs' [dname; m] = lookup1 m es.
+Proof. intros _. apply transfer_frame_all. Qed.
+
+(* outside it the model is NOT the tools: a directory "extracted" over a regular file silently becomes a directory *)
+Lemma conflict_is_outside :
+  ~ no_conflict ["d"; "s"] (Dir []) (Dir [("d", Dir [("s", File "old" false)])]) /\
+  extract (members ["d"; "s"] (Dir [])) (Dir [("d", Dir [("s", File "old" false)])]) = Dir [("d", Dir [("s", Dir [])])].
+Proof. split; [intros [_ H]; exact H | reflexivity]. Qed.
 
 (* what [cell_ok] leaves out is exactly the two refuted cells *)
 Theorem cells_excluded r w dst sname dname t :
